@@ -606,6 +606,7 @@ func ruleMultiPageRedo(c *Ctx, rule string) {
 	// (1) multi-page stamps
 	type multi struct {
 		f     *Func
+		short string // the name the rules know the function by (it may have been renamed)
 		pages []string
 		pos   token.Pos
 	}
@@ -638,7 +639,7 @@ func ruleMultiPageRedo(c *Ctx, rule string) {
 					ps = append(ps, p)
 				}
 				sortStrings(ps)
-				multis = append(multis, multi{f, ps, first})
+				multis = append(multis, multi{f, name[strings.LastIndex(name, ".")+1:], ps, first})
 			}
 		}
 	}
@@ -686,7 +687,7 @@ func ruleMultiPageRedo(c *Ctx, rule string) {
 	}
 	var names, descr []string
 	for _, m := range multis {
-		names = append(names, m.f.Decl.Name.Name)
+		names = append(names, m.short)
 		descr = append(descr, m.f.Name+" stamps "+itoa(len(m.pages))+" pages ("+strings.Join(m.pages, ", ")+")")
 	}
 	key := "storage.(*fileStore).flushPages|page-by-page|multi-page-operations|" + strings.Join(names, "+")
